@@ -89,6 +89,48 @@ Theorem C01_probcover_loop_valid_batch :
 Proof. exact probcover_valid_batch. Qed.
 Print Assumptions C01_probcover_loop_valid_batch.
 
+
+(* loops that mask earlier picks in a freshly computed score row (Clue, DropQuery; in candidate space
+   DiscriminativeAL without greedy selection and FourDs): the scores of every step are an ARBITRARY
+   function of the picks so far (refitted discriminator, b-th centroid, ...) *)
+Theorem C01_oracle_loop_valid_batch :
+  forall (n : nat) (cs : list nat) (score : list nat -> list val) (k : nat) (noises : list (list Z)),
+  (forall prev, length (score prev) = length cs /\ Forall (fun v => is_nan v = false) (score prev)) ->
+  NoDup cs -> Forall (fun i => i < n) cs -> k <= length cs -> noises_ok n k noises ->
+  let picks := map fst (oracle_loop n cs score k noises) in
+  length picks = k /\ NoDup picks /\ Forall (fun p => In p cs) picks.
+Proof. exact oracle_loop_valid_batch. Qed.
+Print Assumptions C01_oracle_loop_valid_batch.
+
+(* ... and a NaN score row breaks it (the recorded FourDs finding): the hypothesis is necessary *)
+Theorem C01_oracle_loop_nan_refuted :
+  let score := fun prev : list nat => match prev with [] => [Some 1; Some 2; Some 3]%Z | _ => [None; None; None] end in
+  map fst (oracle_loop 3 [0; 1; 2] score 3 [[1; 1; 1]; [1; 1; 1]; [1; 1; 1]]%Z) = [2; 0; 0].
+Proof. exact oracle_loop_nan_refuted. Qed.
+Print Assumptions C01_oracle_loop_nan_refuted.
+
+(* _greedy_sampling (GreedySamplingX, first phase of GreedySamplingTarget): compacted utilities, winner
+   translated through not_selected_candidates, then remapped to sample indices - for EVERY distance oracle *)
+Theorem C01_greedy_sampling_valid_batch :
+  forall (d : nat -> nat -> Z) (n_samples : nat) (labeled : list nat) (cidx : nat -> nat)
+         (n : nat) (mapping : list nat) (k : nat) (noises : list (list Z)),
+  NoDup mapping -> Forall (fun i => i < n) mapping -> k <= length mapping ->
+  cnoises_ok (length mapping) k noises ->
+  let picks := map fst (remap n mapping (gsx_loop d n_samples labeled cidx (length mapping) k noises)) in
+  length picks = k /\ NoDup picks /\ Forall (fun p => In p mapping) picks.
+Proof. exact gsx_valid_batch. Qed.
+Print Assumptions C01_greedy_sampling_valid_batch.
+
+(* the remapping step shared by the candidate-space strategies preserves validity *)
+Theorem C01_remap_preserves_valid_batch :
+  forall (n : nat) (mapping : list nat) (t : list step),
+  NoDup mapping -> Forall (fun i => i < n) mapping ->
+  psteps_ok SelMax (seq 0 (length mapping)) [] (length mapping) t = true ->
+  psteps_ok SelMax mapping [] n (remap n mapping t) = true /\
+  NoDup (map fst (remap n mapping t)) /\ Forall (fun p => In p mapping) (map fst (remap n mapping t)).
+Proof. exact remap_valid_batch. Qed.
+Print Assumptions C01_remap_preserves_valid_batch.
+
 (* non-vacuity: a 6-sample pool, two labeled samples, ties among the utilities *)
 Example C01_nonvacuous :
   let lab := [true; false; false; true; false; false] in
